@@ -64,9 +64,10 @@ def reach_text(t: str, v: Leaf, shape: int) -> bool:
     pre: len(t) <= MAXS
     pre: 0 <= shape <= 5
     pre: small(v)
+    pre: t != "zz"
     post: _
     """
-    doc, tokens = _doc_with_obj(t, v, shape)
+    doc, tokens = _doc_with_obj(t, v, shape)  # "zz" is the name of the decoy member in these shapes
     text = O.spell(tokens)
     p = JSONPointer(text, unicode_escape=False)
     got = p.resolve(doc)
